@@ -183,11 +183,16 @@ def api_cases(ctx):
                     for nm in ("sum", "prod", "amax", "amin"):
                         out.append((f"reduce:{nm}:{s}:{axes}", getattr(pt, nm)(a, axis=axes), True))
             out.append((f"reduce:sum:{s}:None", pt.sum(a), True))
+        a_np = pt.make_placeholder(f"npshape{len(out)}", tuple(np.int64(d) for d in s), "float64")
+        out.append((f"reduce:sum:numpy-int-shape:{s}", pt.sum(a_np, axis=0), True))
         a = ph(s, "bool")
         for nm in ("all", "any"):
             out.append((f"reduce:{nm}:{s}:0", getattr(pt, nm)(a, axis=0), True))
     # full / broadcast_to / astype / zeros_like / ones_like
     for s in [(3, 4), (), (0, 2)]:
+        out.append((f"full-nan:{s}", pt.full(s, np.nan), True))
+        out.append((f"full-f32-nan:{s}", pt.full(s, np.float32("nan")), True))
+        out.append((f"full-inf:{s}", pt.full(s, -np.inf), True))
         out.append((f"full:{s}", pt.full(s, 2.5), True))
         out.append((f"zeros:{s}", pt.zeros(s), True))
         out.append((f"full-bool:{s}", pt.full(s, True), True))
@@ -282,6 +287,24 @@ def near_misses(ctx):
     out.append(("call-of-non-broadcastable-operands",
                 mk(prim.Call(v("pytato.c99.atan2"), (v("_in0")[v("_0"), v("_1")], v("_in1")[v("_0")])),
                    (3, 4), {"_in0": m34, "_in1": w3})))
+    # sums of three and more terms that merely START like a subtraction a + (-1)*b (what flattening a - b + c gives)
+    out.append(("flattened-a-minus-b-plus-c",
+                mk(prim.Sum((v("_in0")[v("_0"), v("_1")], prim.Product((-1, v("_in1")[v("_0"), v("_1")])),
+                             v("_in2")[v("_0"), v("_1")])), (3, 3), {"_in0": a, "_in1": b, "_in2": c})))
+    out.append(("flattened-a-minus-b-minus-c",
+                mk(prim.Sum((v("_in0")[v("_0"), v("_1")], prim.Product((-1, v("_in1")[v("_0"), v("_1")])),
+                             prim.Product((-1, v("_in2")[v("_0"), v("_1")])))), (3, 3), {"_in0": a, "_in1": b, "_in2": c})))
+    out.append(("flattened-a-minus-b-plus-scalar",
+                mk(prim.Sum((v("_in0")[v("_0"), v("_1")], prim.Product((-1, v("_in1")[v("_0"), v("_1")])), 2.5)),
+                   (3, 3), {"_in0": a, "_in1": b})))
+    out.append(("product-of-three-starting-with-minus-one",
+                mk(prim.Sum((v("_in0")[v("_0"), v("_1")], prim.Product((-1, v("_in1")[v("_0"), v("_1")],
+                                                                         v("_in2")[v("_0"), v("_1")])))),
+                   (3, 3), {"_in0": a, "_in1": b, "_in2": c})))
+    for opn, cls_ in (("four-operand-logical-and", prim.LogicalAnd), ("three-operand-bitwise-or", prim.BitwiseOr)):
+        out.append((opn, mk(cls_((v("_in0")[v("_0"), v("_1")], v("_in1")[v("_0"), v("_1")], v("_in2")[v("_0"), v("_1")])),
+                            (3, 3), {"_in0": ph((3, 3), "int64"), "_in1": ph((3, 3), "int64"), "_in2": ph((3, 3), "int64")},
+                            dt="int64")))
     # an elementwise operation FUSED with a broadcast of its result: every operand is accessed through its exact
     # broadcast subscript, but the operands' common shape (4,) is not the result's shape (3, 4)
     a4, b4, c4 = ph((4,)), ph((4,)), ph((4,))
